@@ -845,7 +845,7 @@ int main(int argc, char** argv)
   stat("traces", n_eval);
   finish();
   return 0;
-#endif
+#else
   for (uint64_t off : { (uint64_t)0x4000, kSize - 16 }) {
     for (size_t c = 1; c <= 4; c++) {
       variant_range<char, 1>(off + (16 - c), c, idx);
@@ -887,4 +887,5 @@ int main(int argc, char** argv)
   sample("{\"variant\":\"copy_and_verify_string(std::string)\",\"content\":\"string len=3 ending on the last byte\",\"script\":\"1:lengthen,2:remove-all-nul\",\"meaning\":\"adversary acts before read point 1 and before read point 2; the region is overwritten again when the verifier starts\"}", 1);
   finish();
   return 0;
+#endif
 }
